@@ -219,6 +219,9 @@ def c12(res: CheckResult) -> None:
               list(F.fam_conc(res.tier, rng, False)), ic, "thread", nsim)
     conc_unit(res, "asyncio-like tasks: 2-3 concurrent async calls x context modes x all suspension interleavings",
               list(F.fam_conc(res.tier, rng, True)), ic, "async", nsim)
+    conc_unit(res, "asyncio-like tasks in a fresh interpreter that imports icontract BEFORE asyncio",
+              [p for p in F.fam_conc(res.tier, rng, True) if p["tag"].startswith(("conc-func", "conc-method", "conc-parent"))],
+              ic, "async", max(2, nsim // 3), fresh_interpreter=True)
     # code -> specification under schedules finer than the specification's turn: threads preempted at random lines
     # INSIDE the library (sys.settrace), every recorded trace validated by ICCallTrace
     import copy
